@@ -99,6 +99,8 @@ class Item:
 		self.n = 1
 
 
+PENDING = []
+CACHE = {{'a': []}}
 table: dict[str, list[Item]] = {{}}
 names: list[str] = ['a']
 pairs = [(1, 'a')]
@@ -112,6 +114,9 @@ class Registry:
 
 	def visit(self, f: 'Callable[[list[Entry]], {deep}]') -> None:
 		pass
+
+	def lookup(self, books: 'dict[str, dict[str, list[tuple[int, list[Entry]]]]]') -> 'list[dict[str, list[tuple[int, dict[str, Entry]]]]]':
+		return []
 
 	def held(self) -> 'Cell[Entry]':
 		return Cell(Entry())
@@ -160,7 +165,7 @@ class Row:
 		self.cells = cells
 		self.many = None
 '''
-	main = f'''from {a} import table, names, pairs, nested, limit, Item, Row, Registry, Cell, wide
+	main = f'''from {a} import table, names, pairs, nested, limit, PENDING, CACHE, Item, Row, Registry, Cell, wide
 
 
 def use(row: Row) -> int:
@@ -172,6 +177,12 @@ def use(row: Row) -> int:
 	w = wide
 	reg = Registry()
 	found = reg.find('k')
+	looked = reg.lookup({{}})
+	empty_list = []
+	empty_dict = {{}}
+	half = (limit, [])
+	pend = PENDING
+	cache = CACHE
 	cell = Cell(3)
 	p = cell.both()
 	q = cell.spread()
